@@ -316,7 +316,7 @@ UNITS = [dict(
     title="native kernels compute the fixed-point formula fx (round half up, clamped); reads inside the window; frame",
     assumptions=["bounded / sampled: 'kernel == fx' is checked on (A) 4 concrete tap tables x ALL pixel values and (B) concrete pixel rows x ALL "
                  "tap values (SAT does not finish when both are symbolic); memory safety is checked with everything symbolic",
-                 "u8x1, u8x4, u16x1 horizontal and the generic u8 vertical kernel; the other native kernels (u8x2, u8x3, u16x2..4, i32, f32, vertical u16/f32) are not under contract"],
+                 "u8x1, u8x4, u16x1 horizontal and the generic u8 vertical kernel; the other native kernels (u8x2, u8x3, u16x2..4, i32, f32, vertical u16/f32) are under contract in unit K10"],
     kani=dict(
         functions=[dict(file=FU8, fn="horiz_convolution"), dict(file=FU16, fn="horiz_convolution"), dict(file=FU84, fn="horiz_convolution"),
                    dict(file=FV8, fn="vert_convolution"), dict(file=FV8, fn="scale_row"), dict(file=FV8, fn="convolution_by_u8"), dict(file=FV8, fn="convolution_by_chunks")],
